@@ -14,6 +14,28 @@ import (
 // fit 32 bytes after stripping leading zeros or is >= n ("correctly-parsed but invalid signature").
 
 func ParseDERLax(in []byte) (r, s *big.Int, ok bool) {
+	rb, sb, ok := parseDERLaxRaw(in)
+	if !ok {
+		return nil, nil, false
+	}
+	overflow := len(rb) > 32 || len(sb) > 32
+	if !overflow {
+		r = new(big.Int).SetBytes(rb)
+		s = new(big.Int).SetBytes(sb)
+		// secp256k1_ecdsa_signature_parse_compact: fails when r or s overflows the group order
+		if r.Cmp(refec.N) >= 0 || s.Cmp(refec.N) >= 0 {
+			overflow = true
+		}
+	}
+	if overflow {
+		return new(big.Int), new(big.Int), true
+	}
+	return r, s, true
+}
+
+// parseDERLaxRaw is the structural part of the lax parser: the content bytes of R and S with
+// leading zero bytes stripped (any length).
+func parseDERLaxRaw(in []byte) (rb, sb []byte, ok bool) {
 	n := len(in)
 	pos := 0
 	// sequence tag
@@ -82,33 +104,15 @@ func ParseDERLax(in []byte) (r, s *big.Int, ok bool) {
 	if !ok2 {
 		return nil, nil, false
 	}
-	overflow := false
 	for rlen > 0 && in[rpos] == 0 {
 		rlen--
 		rpos++
-	}
-	if rlen > 32 {
-		overflow = true
 	}
 	for slen > 0 && in[spos] == 0 {
 		slen--
 		spos++
 	}
-	if slen > 32 {
-		overflow = true
-	}
-	if !overflow {
-		r = new(big.Int).SetBytes(in[rpos : rpos+rlen])
-		s = new(big.Int).SetBytes(in[spos : spos+slen])
-		// secp256k1_ecdsa_signature_parse_compact: fails when r or s overflows the group order
-		if r.Cmp(refec.N) >= 0 || s.Cmp(refec.N) >= 0 {
-			overflow = true
-		}
-	}
-	if overflow {
-		return new(big.Int), new(big.Int), true
-	}
-	return r, s, true
+	return in[rpos : rpos+rlen], in[spos : spos+slen], true
 }
 
 // ---------------------------------------------------------------------------------------------
@@ -161,7 +165,11 @@ func IsValidSignatureEncoding(sig []byte) bool {
 }
 
 // checkLowS is CPubKey::CheckLowS on the signature without its hash-type byte.
-func checkLowS(sigNoHT []byte) bool {
+func checkLowS(sigNoHT []byte, quirks uint32) bool {
+	if quirks&QuirkLowSPlainComparison != 0 {
+		_, sb, ok := parseDERLaxRaw(sigNoHT)
+		return ok && new(big.Int).SetBytes(sb).Cmp(refec.HalfN) <= 0
+	}
 	_, s, ok := ParseDERLax(sigNoHT)
 	if !ok {
 		return false
@@ -178,7 +186,7 @@ func isDefinedHashtypeSignature(sig []byte) bool {
 }
 
 // checkSignatureEncoding is Core's CheckSignatureEncoding.
-func checkSignatureEncoding(sig []byte, flags uint32) ScriptError {
+func checkSignatureEncoding(sig []byte, flags uint32, quirks uint32) ScriptError {
 	// Empty signature. Not strictly DER encoded, but allowed to provide a compact way to provide an
 	// invalid signature for use with CHECK(MULTI)SIG
 	if len(sig) == 0 {
@@ -189,7 +197,7 @@ func checkSignatureEncoding(sig []byte, flags uint32) ScriptError {
 	}
 	if flags&FlagLowS != 0 {
 		// IsLowDERSignature (its own IsValidSignatureEncoding test has already passed above)
-		if !checkLowS(sig[:len(sig)-1]) {
+		if !checkLowS(sig[:len(sig)-1], quirks) {
 			return ErrSigHighS
 		}
 	}
